@@ -1094,6 +1094,11 @@ fn gen_op(rng: &mut SplitMix64, shape: &[usize], wild: bool) -> Op {
                 if wild && rng.chance(1, 10) && !t.is_empty() {
                     t.remove(0);
                 }
+                if wild && rng.chance(1, 4) && !t.is_empty() {
+                    // shrink an axis to 1 or 0 (not a broadcast unless the source axis is 1)
+                    let i = rng.below(t.len() as u64) as usize;
+                    t[i] = rng.below(2) as usize;
+                }
                 while t.iter().product::<usize>() > 160 {
                     let i = rng.below(t.len() as u64) as usize;
                     if t[i] > 1 && (i < pad || shape[i - pad] == 1) {
@@ -1187,36 +1192,78 @@ fn gen_op(rng: &mut SplitMix64, shape: &[usize], wild: bool) -> Op {
     }
 }
 
-fn generate(seed: u64, n: usize, _tier: &str, out: &mut impl Write) {
-    let mut rng = SplitMix64(seed ^ 0xC09);
-    for i in 0..n {
-        let src = gen_source(&mut rng);
-        // one case in four is the malformed / extreme stream
-        let wild = i % 4 == 3;
-        let mut arena = Arena::new();
-        let mut ops: Vec<Op> = vec![];
-        if let Ok(mut v) = source_view(&src, &mut arena) {
-            let len = rng.below(7) as usize;
-            for _ in 0..len {
-                let shape = v.shape().to_vec();
-                let op = gen_op(&mut rng, &shape, wild);
-                if let Applied::Ok(x) = apply(&v, &op, &mut arena) {
-                    v = x;
-                }
-                ops.push(op);
+/// Generate chain number `i`.  The line is written progressively (header, then each
+/// operation before it is applied), so that if the implementation crashes while the
+/// generator simulates the chain, the supervisor still has the input that crashed it.
+fn gen_one(seed: u64, i: usize, out: &mut impl Write) {
+    let mut rng = SplitMix64(seed ^ 0xC09 ^ (i as u64 + 1).wrapping_mul(0x9E3779B97F4A7C15));
+    let src = gen_source(&mut rng);
+    // one case in four is the malformed / extreme stream
+    let wild = i % 4 == 3;
+    let mut arena = Arena::new();
+    write!(out, "{}|{}|{}|{}|", src.len, src.off, fmt_list(&src.shape), fmt_list(&src.strides)).unwrap();
+    out.flush().unwrap();
+    if let Ok(mut v) = source_view(&src, &mut arena) {
+        let len = rng.below(7) as usize;
+        for k in 0..len {
+            let shape = v.shape().to_vec();
+            let op = gen_op(&mut rng, &shape, wild);
+            write!(out, "{}{}", if k > 0 { ";" } else { "" }, fmt_op(&op)).unwrap();
+            out.flush().unwrap();
+            if let Applied::Ok(x) = apply(&v, &op, &mut arena) {
+                v = x;
             }
         }
-        writeln!(
-            out,
-            "{}|{}|{}|{}|{}",
-            src.len,
-            src.off,
-            fmt_list(&src.shape),
-            fmt_list(&src.strides),
-            ops.iter().map(fmt_op).collect::<Vec<_>>().join(";")
-        )
-        .unwrap();
     }
+    writeln!(out).unwrap();
+    out.flush().unwrap();
+}
+
+/// Supervisor of the chain generator: chains are generated in a child process so that a
+/// crash of the implementation ends one input line, not the run.
+fn generate(seed: u64, n: usize, _tier: &str, out: &mut impl Write) {
+    use std::io::BufReader;
+    use std::process::{Child, ChildStdin, ChildStdout, Command, Stdio};
+    let exe = std::env::current_exe().unwrap();
+    let spawn = || -> (Child, ChildStdin, BufReader<ChildStdout>) {
+        let mut c = Command::new(&exe)
+            .arg("gen-child")
+            .arg(seed.to_string())
+            .stdin(Stdio::piped())
+            .stdout(Stdio::piped())
+            .stderr(Stdio::null())
+            .spawn()
+            .unwrap();
+        let i = c.stdin.take().unwrap();
+        let o = BufReader::new(c.stdout.take().unwrap());
+        (c, i, o)
+    };
+    let (mut child, mut cin, mut cout) = spawn();
+    for i in 0..n {
+        let sent = writeln!(cin, "{}", i).and_then(|_| cin.flush()).is_ok();
+        let mut line = String::new();
+        if sent {
+            let _ = cout.read_line(&mut line);
+        }
+        if line.ends_with('\n') {
+            out.write_all(line.as_bytes()).unwrap();
+        } else {
+            // the child died while simulating this chain: keep what it had printed
+            let _ = child.kill();
+            let _ = child.wait();
+            if line.matches('|').count() >= 4 {
+                writeln!(out, "{}", line.trim_end_matches(';')).unwrap();
+            } else {
+                writeln!(out, "1|0|||").unwrap();
+            }
+            let (c, ci, co) = spawn();
+            child = c;
+            cin = ci;
+            cout = co;
+        }
+    }
+    drop(cin);
+    let _ = child.wait();
 }
 
 fn generate_sr(tier: &str, out: &mut impl Write) {
@@ -1249,6 +1296,66 @@ fn generate_sr(tier: &str, out: &mut impl Write) {
     }
 }
 
+/// Answer for an input on which the implementation crashed the process (SIGSEGV, abort):
+/// a case that fails the property oracle, so that the input is reported with a replay file.
+fn crash_line(line: &str, sr: bool) -> String {
+    if sr {
+        let base = exec_sr_line("0|0|_|1");
+        let term = base.split('\t').nth(2).unwrap().replacen("q_steps := 0", "q_steps := 999999", 1);
+        format!("crash-sr\t{}\t{}", line, term)
+    } else {
+        format!(
+            "crash\t{}\tCChain {{| c_len := 0; c_off := 0; c_shape := []; c_strides := []; c_src := OErr Anomaly; c_steps := [] |}}",
+            line
+        )
+    }
+}
+
+/// Run the cases in a child process, one line at a time, so that a crash of the
+/// implementation (memory-unsafe behaviour) is attributed to its input instead of killing
+/// the whole run.
+fn supervise(sr: bool, out: &mut impl Write) {
+    use std::io::BufReader;
+    use std::process::{Child, ChildStdin, ChildStdout, Command, Stdio};
+    let exe = std::env::current_exe().unwrap();
+    let spawn = || -> (Child, ChildStdin, BufReader<ChildStdout>) {
+        let mut c = Command::new(&exe)
+            .arg(if sr { "child-sr" } else { "child" })
+            .stdin(Stdio::piped())
+            .stdout(Stdio::piped())
+            .stderr(Stdio::null())
+            .spawn()
+            .unwrap();
+        let i = c.stdin.take().unwrap();
+        let o = BufReader::new(c.stdout.take().unwrap());
+        (c, i, o)
+    };
+    let (mut child, mut cin, mut cout) = spawn();
+    for line in std::io::stdin().lock().lines() {
+        let line = line.unwrap();
+        if line.trim().is_empty() {
+            continue;
+        }
+        let sent = writeln!(cin, "{}", line).and_then(|_| cin.flush()).is_ok();
+        let mut answer = String::new();
+        let got = if sent { cout.read_line(&mut answer).unwrap_or(0) } else { 0 };
+        if got == 0 || !answer.ends_with('\n') {
+            // the child died on this input
+            let _ = child.kill();
+            let _ = child.wait();
+            writeln!(out, "{}", crash_line(&line, sr)).unwrap();
+            let (c, i, o) = spawn();
+            child = c;
+            cin = i;
+            cout = o;
+        } else {
+            out.write_all(answer.as_bytes()).unwrap();
+        }
+    }
+    drop(cin);
+    let _ = child.wait();
+}
+
 fn main() {
     quiet_panics();
     let args: Vec<String> = std::env::args().collect();
@@ -1264,8 +1371,17 @@ fn main() {
                 generate(seed, n, &args[4], &mut out);
             }
         }
-        Some("exec") | Some("exec-sr") => {
-            let sr = args[1] == "exec-sr";
+        Some("gen-child") => {
+            let seed: u64 = args[2].parse().unwrap();
+            for line in std::io::stdin().lock().lines() {
+                let i: usize = line.unwrap().trim().parse().unwrap();
+                gen_one(seed, i, &mut out);
+            }
+        }
+        Some("exec") => supervise(false, &mut out),
+        Some("exec-sr") => supervise(true, &mut out),
+        Some("child") | Some("child-sr") => {
+            let sr = args[1] == "child-sr";
             for line in std::io::stdin().lock().lines() {
                 let line = line.unwrap();
                 if line.trim().is_empty() {
@@ -1282,6 +1398,7 @@ fn main() {
                     exec_line(&line)
                 };
                 writeln!(out, "{}", s).unwrap();
+                out.flush().unwrap();
             }
         }
         _ => {
